@@ -98,6 +98,16 @@ def run(ctx, config='rel-all'):
     # is strictly larger than finger - data (shared with C18.O6)
     from . import c18
     c18.check_exact_refusal(ctx, A, config, 'R4')
+    # ---- R5 'keeps its limit ... for any history after it': the counter reset() re-establishes is the usable size of the kept
+    # chunk (J4, shared with C08.O1) -- a wrong constant makes the arena refuse or exceed its limit after a reset
+    from .. import runner
+    from . import c08, c03
+    fsz = arena.ArenaInterp(db).size_of('ChunkFooter')
+    if is_c(fsz):
+        c08.check_j4(ctx, A, db, fsz, 'R5')
+    # ---- R6 'exactly the other chunks were released': the releaser reset() calls gives each chunk back with the pair recorded
+    # in that chunk's own footer, stops at the sentinel and touches nothing after freeing it (the obligations of C03)
+    c03.run(runner.Sub(ctx, 'R6', 'C03'), config)
     # ---- R3 frame
     for e in res.events:
         if e.kind == 'store':
